@@ -6,8 +6,6 @@
 
 static sexp sexp_signal_contexts[SEXP_MAX_SIGNUM];
 
-static struct sigaction call_sigaction, call_sigdefault, call_sigignore;
-
 static void sexp_call_sigaction (int signum, siginfo_t *info, void *uctx) {
   sexp ctx;
 #if ! SEXP_USE_GREEN_THREADS
@@ -36,6 +34,7 @@ static void sexp_call_sigaction (int signum, siginfo_t *info, void *uctx) {
 static sexp sexp_set_signal_action (sexp ctx, sexp self, sexp signum, sexp newaction) {
   int res;
   sexp oldaction;
+  struct sigaction act;
   if (! (sexp_fixnump(signum) && sexp_unbox_fixnum(signum) > 0
          && sexp_unbox_fixnum(signum) < SEXP_MAX_SIGNUM))
     return sexp_xtype_exception(ctx, self, "not a valid signal number", signum);
@@ -46,11 +45,19 @@ static sexp sexp_set_signal_action (sexp ctx, sexp self, sexp signum, sexp newac
     sexp_global(ctx, SEXP_G_SIGNAL_HANDLERS)
       = sexp_make_vector(ctx, sexp_make_fixnum(SEXP_MAX_SIGNUM), SEXP_FALSE);
   oldaction = sexp_vector_ref(sexp_global(ctx, SEXP_G_SIGNAL_HANDLERS), signum);
-  res = sigaction(sexp_unbox_fixnum(signum),
-                  (sexp_booleanp(newaction) ?
-                   (sexp_truep(newaction) ? &call_sigdefault : &call_sigignore)
-                   : &call_sigaction),
-                  NULL);
+  memset(&act, 0, sizeof(act));
+  if (sexp_booleanp(newaction)) {
+    act.sa_handler = sexp_truep(newaction) ? SIG_DFL : SIG_IGN;
+  } else {
+    act.sa_sigaction = sexp_call_sigaction;
+#if SEXP_USE_GREEN_THREADS
+    act.sa_flags = SA_SIGINFO | SA_RESTART /* | SA_NODEFER */;
+    sigfillset(&act.sa_mask);
+#else
+    act.sa_flags = SA_SIGINFO | SA_RESTART | SA_NODEFER;
+#endif
+  }
+  res = sigaction(sexp_unbox_fixnum(signum), &act, NULL);
   if (res)
     return sexp_user_exception(ctx, self, "couldn't set signal", signum);
   sexp_vector_set(sexp_global(ctx, SEXP_G_SIGNAL_HANDLERS), signum, newaction);
@@ -146,15 +153,8 @@ static pid_t sexp_fork_and_kill_threads (sexp ctx) {
   return res;
 }
 
+/* Nothing to set up: sexp_signal_contexts is zero-initialised static storage */
+/* shared by every context of the process, so loading the library again      */
+/* (from another context, possibly in another OS thread) must not touch it.  */
 static void sexp_init_signals (sexp ctx, sexp env) {
-  call_sigaction.sa_sigaction  = sexp_call_sigaction;
-#if SEXP_USE_GREEN_THREADS
-  call_sigaction.sa_flags      = SA_SIGINFO | SA_RESTART /* | SA_NODEFER */;
-  sigfillset(&call_sigaction.sa_mask);
-#else
-  call_sigaction.sa_flags      = SA_SIGINFO | SA_RESTART | SA_NODEFER;
-#endif
-  call_sigdefault.sa_handler   = SIG_DFL;
-  call_sigignore.sa_handler    = SIG_IGN;
-  memset(sexp_signal_contexts, 0, sizeof(sexp_signal_contexts));
 }
